@@ -127,7 +127,18 @@ class C17(Prop):
             ef = np.histogram_bin_edges(arr.astype(float), bins=case["method"])
         return len(ei) != len(ef) or not np.allclose(ei, ef)
 
+    DTYPES = {"bool": (0, 1), "uint8": (0, 2**8 - 1), "uint16": (0, 2**16 - 1), "uint32": (0, 2**32 - 1), "uint64": (0, 2**53), "int8": (-2**7, 2**7 - 1),
+              "int16": (-2**15, 2**15 - 1), "int32": (-2**31, 2**31 - 1), "int64": (-2**63, 2**63 - 1), "float32": (-1000, 1000), "float64": (-2**40, 2**40)}
+
     def generate(self, tier, rng):
+        # the dtype rule (which dtypes are cast to float64 before the arithmetic) against the model's decision table, with whole
+        # numbers at the ends of each dtype's range, where arithmetic inside the dtype wraps around
+        for d, (lo, hi) in self.DTYPES.items():
+            pairs = [(lo, hi), (hi, lo), (lo, lo), (hi, hi)] + [(rng.randint(lo, hi), rng.randint(lo, hi)) for _ in range(4 if tier == "quick" else 40)]
+            if d == "int64":
+                pairs += [(-2**62, 2**62 + 5), (2**62 + 7, -2**62)]
+            for y, z in pairs:
+                yield {"stream": "dtype_rule", "dtype": d, "y": [y], "z": [z], "w": None, "container": "np_" + d, "big": False}
         N = 1500 if tier == "quick" else 25000
         for k in range(N):
             ep = ENTRY[k % len(ENTRY)]
@@ -275,6 +286,21 @@ class C17(Prop):
 
     def impl(self, case):
         global _REUSE
+        if case["stream"] == "dtype_rule":
+            import warnings
+            from model_diagnostics.calibration import identification_function
+            from model_diagnostics.scoring import SquaredError
+
+            d = case["dtype"]
+            y, z = np.array(case["y"]).astype(d), np.array(case["z"]).astype(d)
+            try:
+                with warnings.catch_warnings():
+                    warnings.simplefilter("ignore")
+                    r = np.asarray(identification_function(y, z, functional="mean"))
+                    sq = np.asarray(SquaredError().score_per_obs(y, z))
+            except Exception as e:
+                return {"err": exc_class(e), "msg": str(e)[:160]}
+            return {"kind": r.dtype.kind, "residual": int(r[0]), "sq_kind": sq.dtype.kind, "sq": float(sq[0])}
         out = {}
         for cont in ("np_float64", case["container"]):
             try:
@@ -297,6 +323,8 @@ class C17(Prop):
         return out
 
     def model_request(self, case):
+        if case["stream"] == "dtype_rule":
+            return {"op": "dtype_rule", "y": str(case["y"][0]), "z": str(case["z"][0])}
         if case["stream"] != "score" or case["big"] or case.get("kind") == "elementary":
             return None
         z = [v / (max(case["z"]) + 1) for v in case["z"]] if case["kind"] == "logloss" else [float(v) for v in case["z"]]
@@ -304,6 +332,18 @@ class C17(Prop):
                                 None if case["w"] is None else [float(v) for v in case["w"]])
 
     def compare(self, case, io, mo):
+        if case["stream"] == "dtype_rule":
+            if "err" in io:
+                return None if case["dtype"] == "bool" and io["err"] == "TypeError" else f"valid input rejected: {io}"
+            m = mo[case["dtype"]]
+            integer = case["dtype"] not in ("float32", "float64")
+            if integer and (io["kind"] == "f") != m["ident_casts"]:
+                return f"identification_function returns dtype kind {io['kind']!r} for {case['dtype']} input, the model's rule says cast = {m['ident_casts']}"
+            if io["residual"] != int(m["residual"]):
+                return f"identification_function({case['y'][0]}, {case['z'][0]}) in {case['dtype']} gives {io['residual']}, model {m['residual']}"
+            if integer and (io["sq_kind"] == "f") != m["score_casts"]:
+                return f"SquaredError returns dtype kind {io['sq_kind']!r} for {case['dtype']} input, the model's rule says cast = {m['score_casts']}"
+            return None
         base = io["np_float64"]
         if ("err" in base) != ("err" in mo):
             return f"float64 outcome {base.get('err', 'ok')} vs model {mo.get('err', 'ok')}"
@@ -316,6 +356,17 @@ class C17(Prop):
         return None
 
     def oracle(self, case, io):
+        if case["stream"] == "dtype_rule":
+            if "err" in io:
+                return f"valid input rejected: {io}"
+            y, z = case["y"][0], case["z"][0]
+            # the property itself: the same numbers in any dtype give the same residual and the same squared error - wherever
+            # the exact values are representable (int64 differences beyond 2^63 are outside: see DESIGN 10.8)
+            if abs(z - y) < 2**63 and io["residual"] != z - y:
+                return f"residual of ({y}, {z}) held in {case['dtype']} is {io['residual']}, not {z - y}"
+            if abs(z - y) < 2**26 and io["sq"] != float((z - y) ** 2):
+                return f"squared error of ({y}, {z}) held in {case['dtype']} is {io['sq']}, not {(z - y) ** 2}"
+            return None
         base, other = io["np_float64"], io[case["container"]]
         if ("err" in base) != ("err" in other):
             return (f"{case['stream']}: float64 arrays give {base.get('err', 'a result')} but {case['container']} gives "
@@ -340,6 +391,8 @@ class C17(Prop):
         return None
 
     def nontrivial(self, case, io):
+        if case["stream"] == "dtype_rule":
+            return case["y"] != case["z"]
         return case["container"] != "np_float64" and len(set(case["y"])) > 1
 
     def shrink(self, case):
